@@ -30,6 +30,7 @@ let primary_ptr = ref 0
 let api_bad : string list ref = ref []
 let last_ok_req : (int, int) Hashtbl.t = Hashtbl.create 8
 let last_mig_req : (int * int, int * int) Hashtbl.t = Hashtbl.create 8
+let mig_stored : (int, bool) Hashtbl.t = Hashtbl.create 8      (* actor -> a MIGST record since its migrate_to_pool call began *)
 let ext_joiner : (int, int) Hashtbl.t = Hashtbl.create 8         (* actor pointer -> dummy id of its current join *)
 let root_ptrs : (int, bool) Hashtbl.t = Hashtbl.create 8         (* root ULTs of the streams: outside the model *)
 
@@ -55,9 +56,86 @@ let fresh_uid ptr = let u = !next_uid in incr next_uid; Hashtbl.replace unit_of_
 
 exception Mismatch of string
 let count = ref 0
+
+(* ---- stop-decision monitor (coq/Conc/SchedStop.v, theorem C06_stop_sound) ----
+   per actor: what it observed since it last did anything else (newest first) *)
+type wrec = WObs of int * sobs * bool   (* line, observation, no unit of that pool in somebody's hands (zero reads only) *)
+          | WNs of int * int * int      (* line, pool, num_scheds read *)
+          | WCancel
+let win : (int, wrec list) Hashtbl.t = Hashtbl.create 8
+let last_uncalm : (int, int) Hashtbl.t = Hashtbl.create 16   (* pool -> last line of an arrival / pop *)
+let stops = ref 0 and stops_hyp = ref 0 and stops_outside = ref 0 and stops_shared = ref 0 and stops_cancel = ref 0
+let known_pools () = 99 :: Hashtbl.fold (fun _ p acc -> if List.mem p acc then acc else p :: acc) pool_of_ptr []
+let no_hands p =
+  let ok = ref true in
+  for u = 1 to !next_uid - 1 do
+    if unit_in_hands ((!cur).un (nat_of u)) (nat_of p) then ok := false
+  done; !ok
+let all_done p =
+  let live = ref [] in
+  for u = 1 to !next_uid - 1 do
+    if not (unit_done ((!cur).un (nat_of u)) (nat_of p)) then live := u :: !live
+  done; !live
+let pending_empty : (int, int * int) Hashtbl.t = Hashtbl.create 8   (* actor -> (line, queue) of an "empty" read of an unknown queue *)
+let note_obs aptr r = Hashtbl.replace win aptr (r :: (match Hashtbl.find_opt win aptr with Some l -> l | None -> []))
+let learn_queue aptr p =
+  match Hashtbl.find_opt pending_empty aptr with
+  | Some (l, qp) ->
+    Hashtbl.remove pending_empty aptr;
+    if not (Hashtbl.mem queue_pool qp) then begin
+      Hashtbl.replace queue_pool qp p;
+      note_obs aptr (WObs (l, SEmpty (nat_of p, true), false))
+    end
+  | None -> ()
+let wline = function WObs (l, _, _) -> l | WNs (l, _, _) -> l | WCancel -> -1
+let sched_stop ln aptr =
+  let w = List.rev (match Hashtbl.find_opt win aptr with Some l -> l | None -> []) in
+  incr stops;
+  if List.exists (function WCancel -> true | _ -> false) w then incr stops_cancel
+  else begin
+    let w = List.sort (fun a b -> compare (wline a) (wline b)) w in
+    (* reads on consecutive lines of the history observe one and the same model state (nothing was recorded in
+       between), so their order among themselves is immaterial: number these groups *)
+    let grp = Hashtbl.create 16 in
+    let g = ref 0 and prev = ref (-10) in
+    List.iter (fun r -> let l = wline r in if l <> !prev + 1 then incr g; prev := l; Hashtbl.replace grp l !g) w;
+    let gof l = try Hashtbl.find grp l with Not_found -> -1 in
+    (* within a group: counter reads before emptiness reads *)
+    let key = function WObs (l, SNb _, _) -> (gof l, 0, l) | WObs (l, SEmpty _, _) -> (gof l, 1, l) | r -> (gof (wline r), 2, wline r) in
+    let w = List.sort (fun a b -> compare (key a) (key b)) w in
+    let obs = List.filter_map (function WObs (_, o, _) -> Some o | _ -> None) w in
+    let pools = List.sort_uniq compare (List.map (function SEmpty (p, _) -> int_of_nat p | SNb (p, _) -> int_of_nat p) obs) in
+    if pools = [] then
+      api_bad := Printf.sprintf "line%d:scheduler-stopped-on-a-join-request-without-looking-at-any-of-its-pools" ln :: !api_bad;
+    List.iter (fun p ->
+        if List.exists (function WNs (_, p', v) -> p' = p && v <> 1 | _ -> false) w then incr stops_shared
+        else if not (zero_then_empty (nat_of p) false obs) then
+          api_bad := Printf.sprintf "line%d:scheduler-stopped-without-reading-num_blocked=0-and-then-an-empty-queue-for-pool%d" ln p :: !api_bad
+        else begin
+          (* the last "empty" read, and the last zero read that is not later than it (same group counts) *)
+          let le = List.fold_left (fun acc r -> match r with
+              | WObs (l, SEmpty (p', true), _) when int_of_nat p' = p -> max acc l | _ -> acc) (-1) w in
+          let z = List.fold_left (fun acc r -> match r with
+              | WObs (l, SNb (p', v), nh) when int_of_nat p' = p && v = Z0 && gof l <= gof le ->
+                (match acc with Some (l', _) when l' > l -> acc | _ -> Some (l, nh))
+              | _ -> acc) None w in
+          (match z with
+           | Some (l0, nh) when nh && (match Hashtbl.find_opt last_uncalm p with Some l -> l < l0 | None -> true) ->
+             incr stops_hyp;
+             (match all_done p with
+              | [] -> ()
+              | live -> api_bad := Printf.sprintf "line%d:stop-decision-for-pool%d-meets-the-hypotheses-of-C06_stop_sound-but-units-%s-are-not-done" ln p
+                            (String.concat "," (List.map string_of_int live)) :: !api_bad)
+           | _ -> incr stops_outside)
+        end) pools
+  end;
+  Hashtbl.remove win aptr
+
 let apply ln desc e units pools seens =
   match step !cur e with
-  | Some s' -> incr count; compact s' units pools seens
+  | Some s' -> incr count;
+    List.iter (fun p -> if not (calm (nat_of p) e) then Hashtbl.replace last_uncalm p ln) (known_pools ());
+    compact s' units pools seens
   | None ->
     let info = String.concat " " (List.map (fun u -> let r = (!cur).un (nat_of u) in
                                              Printf.sprintf "[u%d:%s ost=%s pool=%d req=%b%b%b migs=%d]" u (ust_name r.ust)
@@ -111,6 +189,14 @@ let () =
         let aptr = (match String.split_on_char '@' actor with [_; p] -> hex p | _ -> 0) in
         let desc = kind ^ " " ^ String.concat " " f in
         let a = aid aptr in
+        (* the stop-decision window of this actor ends with anything that is not an observation *)
+        (match kind, f with
+         | ("NBLOAD" | "NSLOAD"), _ -> ()
+         | ("QEMPTY" | "SREQLD" | "SCHEDSTOP"), _ -> Hashtbl.remove pending_empty aptr
+         | "QPOP", [_; t; _] when hex t = 0 -> Hashtbl.remove pending_empty aptr
+         | "REQLOAD", [_; site; v] when hex site = 2 ->
+           Hashtbl.remove pending_empty aptr; if hex v land 2 <> 0 then note_obs aptr WCancel
+         | _ -> Hashtbl.remove win aptr; Hashtbl.remove pending_empty aptr);
         (match kind, f with
          (* ---- harness records ---- *)
          | "K1015", [idx; ptr; _] -> Hashtbl.replace pool_of_ptr (int_of_string ptr) (int_of_string idx)
@@ -125,7 +211,8 @@ let () =
                  | None -> (match Hashtbl.find_opt idx_ptr idx with
                      | Some p -> (match Hashtbl.find_opt unit_of_ptr p with Some u -> int_of_nat ((!cur).un (nat_of u)).upool | None -> -1)
                      | None -> -1)) in
-             Hashtbl.replace last_mig_req (aptr, idx) (int_of_string c, cur_pool)
+             Hashtbl.replace last_mig_req (aptr, idx) (int_of_string c, cur_pool);
+             Hashtbl.replace mig_stored aptr false
            end
          | "K1014", [op; idx; c] ->
            let op = int_of_string op and idx = int_of_string idx in
@@ -159,6 +246,9 @@ let () =
               | Some (p, cur_pool), _ ->
                 let rc = int_of_string c in
                 if rc = 0 then Hashtbl.replace last_ok_req idx p;
+                (* an acknowledged request has stored its target and set the request bit inside the call *)
+                if rc = 0 && Hashtbl.find_opt mig_stored aptr <> Some true then
+                  api_bad := Printf.sprintf "migrate_to_pool(unit%d,pool%d)-returned-0-without-storing-the-request" idx p :: !api_bad;
                 if (p = cur_pool) <> (rc <> 0) then
                   api_bad := Printf.sprintf "migrate_to_pool(unit%d,pool%d)-returned-%d-with-current-pool-%d" idx p rc cur_pool :: !api_bad
               | _ -> ())
@@ -253,20 +343,28 @@ let () =
             | None -> if !status <> "STUCK" then raise (Mismatch (Printf.sprintf "line=%d NBADD without a following NBWHO by the same actor" ln)))
          | "NBWHO", _ -> ()
          | "UFREE", [t; _; _] -> let u = unit_id ln (hex t) in apply ln desc (EFree (nat_of u)) [u] [] []
-         | "MIGST", [t; p; _] -> let u = unit_id ln (hex t) in apply ln desc (EMigSt (nat_of u, nat_of (pool_id (hex p)))) [u] [] []
+         | "MIGST", [t; p; _] -> Hashtbl.replace mig_stored aptr true; let u = unit_id ln (hex t) in apply ln desc (EMigSt (nat_of u, nat_of (pool_id (hex p)))) [u] [] []
          | "MIGLD", [t; p; _] -> let u = unit_id ln (hex t) in apply ln desc (EMigLd (nat_of u, nat_of (pool_id (hex p)))) [u] [] []
          | "MIGCB", [t; _; _] -> let u = unit_id ln (hex t) in apply ln desc (EMigCb (nat_of u)) [u] [] []
          | "SCHEDSTOP", [sp; _; _] ->
+           sched_stop ln aptr;
            (match Hashtbl.find_opt sched_unit (hex sp) with
             | Some up -> let u = unit_id ln up in apply ln desc (EFinish (nat_of u)) [u] [] []
             | None -> ())
          | "QEMPTY", [qp; _; v] ->
            (match Hashtbl.find_opt queue_pool (hex qp) with
-            | Some p -> apply ln desc (EEmptyLoad (nat_of p, hex v <> 0)) [] [p] []
-            | None -> if hex v = 0 then raise (Mismatch (Printf.sprintf "line=%d a queue nothing was pushed to is reported non-empty" ln)))
+            | Some p -> apply ln desc (EEmptyLoad (nat_of p, hex v <> 0)) [] [p] [];
+              note_obs aptr (WObs (ln, SEmpty (nat_of p, hex v <> 0), false))
+            | None -> if hex v = 0 then raise (Mismatch (Printf.sprintf "line=%d a queue nothing was pushed to is reported non-empty" ln));
+              (* which pool this queue belongs to is learnt from the next counter read of the same actor *)
+              Hashtbl.replace pending_empty aptr (ln, hex qp))
          | "NBLOAD", [p; _; v] -> let p = pool_id (hex p) in
-           apply ln desc (ENbLoad (nat_of p, z_of_int (let v = hex v in if v >= 0x80000000 then v - 0x100000000 else v))) [] [p] []
-         | ("NSLOAD" | "SREQOR" | "SREQLD" | "XSTATE" | "RUNTASK"), _ -> ()
+           learn_queue aptr p;
+           let v = z_of_int (let v = hex v in if v >= 0x80000000 then v - 0x100000000 else v) in
+           apply ln desc (ENbLoad (nat_of p, v)) [] [p] [];
+           note_obs aptr (WObs (ln, SNb (nat_of p, v), v = Z0 && no_hands p))
+         | "NSLOAD", [p; _; v] -> let p = pool_id (hex p) in learn_queue aptr p; note_obs aptr (WNs (ln, p, hex v))
+         | ("SREQOR" | "SREQLD" | "XSTATE" | "RUNTASK"), _ -> ()
          | _ -> raise (Mismatch (Printf.sprintf "line=%d unknown record %s" ln desc)))
       | _ -> ()) lines
   with Mismatch m -> mism := Some m);
@@ -293,4 +391,5 @@ let () =
         let r = (!cur).un (nat_of u) in
         if int_of_nat r.starts > 1 then bad := Printf.sprintf "model:unit%d-starts=%d" idx (int_of_nat r.starts) :: !bad) idx_uid;
   bad := !bad @ !api_bad;
-  if !bad = [] then print_endline "MON ok" else print_endline ("MONFAIL " ^ String.concat " " (List.rev !bad))
+  if !bad = [] then print_endline "MON ok" else print_endline ("MONFAIL " ^ String.concat " " (List.rev !bad));
+  Printf.printf "STOPS decisions=%d within_hypotheses=%d outside=%d shared_pool=%d cancelled=%d\n" !stops !stops_hyp !stops_outside !stops_shared !stops_cancel
